@@ -478,6 +478,22 @@ Section Settings.
      which a HashSet<TypeSpaceImpl> is drained into the Vec (any permutation). *)
   Variable vec_order : list timpl -> list timpl.
 
+  (* The binding of TypeSpaceSettings.crates that ONE entry of the macro's `crates`
+     table stands for (key = the crate named in x-rust-type):
+       "name" = "ver"            ->  name     |-> { ver, rename: None }
+       "rename" = "original@ver" ->  original |-> { ver, rename: Some rename }
+     EVERY entry is handed to with_crate, whatever its version: `!` (Never) too.  The
+     generator distinguishes a crate that is listed as Never (its types are always
+     generated) from a crate that is not listed (decided by `unknown_crates`),
+     rust_extension.rs:61-84, so dropping a Never entry changes the output under
+     unknown_crates = Allow. *)
+  Definition macro_crate_binding (e : ustring * (option ustring * crate_vers V)) : ustring * crate_entry :=
+    let '(crate_name, (original, version)) := e in
+    match original with
+    | Some original_crate => (original_crate, {| ce_version := version; ce_rename := Some crate_name |})
+    | None => (crate_name, {| ce_version := version; ce_rename := None |})
+    end.
+
   Definition macro_settings_of (mi : macro_input) : settings :=
     let s := default_settings in
     let s := fold_left (fun s d => with_derive d s) (mi_derives mi) s in
